@@ -269,6 +269,18 @@ pub fn explore(builder: bool, depth: usize, threads: usize) -> TableStats {
     TableStats { states, transitions, max_depth, violations }
 }
 
+/// the same exploration with the layered parallel explorer
+pub fn explore_layers(builder: bool, depth: usize) -> TableStats {
+    let n = if builder { BUILDER_VALUES as u8 } else { INTERNER_VALUES.len() as u8 };
+    let alphabet: Vec<u8> = (0..n).collect();
+    let model = TableModel { builder, depth, nvalues: n, transitions: AtomicU64::new(0), violations: Mutex::new(vec![]) };
+    let st = crate::bfs::explore(&alphabet, depth, (0, 0), 5000, |h: &[u8]| {
+        let (k, f) = model.eval(h);
+        ((h64(&k), h64(&(1u8, &k))), f.map(|(key, msg)| Violation { key: format!("{}:{key}", if builder { "builder" } else { "interner" }), msg: format!("{msg} — after {:?}", model.describe(h)), case: json!({"kind": if builder {"builder"} else {"interner"}, "ops": h}) }))
+    });
+    TableStats { states: st.states, transitions: st.transitions, max_depth: st.max_depth, violations: st.violations }
+}
+
 pub fn replay_case(case: &Value) -> Option<(String, String)> {
     let h: Vec<u8> = case["ops"].as_array()?.iter().map(|x| x.as_u64().unwrap() as u8).collect();
     if case["kind"] == "builder" {
